@@ -30,6 +30,7 @@ META['explanation'] += ' ' + 'R4: no function between the wire bytes of a hello 
 META['explanation'] += ' ' + 'R7: the decoders behind the sections (generic and overriding) hand out the member whose code is on the wire (shared with C10.R2).'
 
 META['explanation'] += ' ' + 'R8: hello and extension attributes are composed as stored (shared with C01.R2). R9: no vector class redefines its construction or a sequence method (shared with C12.R13).'
+META['explanation'] += ' ' + 'R10: the extension block is read whenever anything is left of the hello body (shared with C06.R13).'
 HERE = os.path.dirname(os.path.dirname(os.path.abspath(__file__)))
 
 
